@@ -7,6 +7,7 @@ import (
 	"context"
 	"encoding/json"
 	"fmt"
+	"os/exec"
 	"sort"
 	"strconv"
 	"strings"
@@ -500,6 +501,18 @@ func Run(o *core.Options) int {
 	}
 	results := e1.RunSharded(o, r, scs, b)
 	e1.Merge(r, results)
+	if o.Thorough() {
+		// free-running -race pass over the uninstrumented queues (supplementary: samples schedules)
+		out, err := exec.Command(core.Root+"/.build/bin/qrace", "4000").CombinedOutput()
+		r.Set("race_pass", map[string]any{"ran": true, "ok": err == nil, "tail": lastLine(string(out))})
+		if err != nil || strings.Contains(string(out), "DATA RACE") {
+			msg := string(out)
+			if len(msg) > 3000 {
+				msg = msg[:3000]
+			}
+			r.Violate("data-race-reported-by-race-detector", "free-running -race pass over mpmc/mpsc: "+msg, map[string]any{"cmd": ".build/bin/qrace 4000"})
+		}
+	}
 	for i, res := range results {
 		if res != nil && i < 3 {
 			r.Sample(map[string]any{"scenario": res.Name, "outcomes": res.Outcomes})
@@ -541,4 +554,12 @@ func remarshal(in any, out any) error {
 		return err
 	}
 	return json.Unmarshal(b, out)
+}
+
+func lastLine(s string) string {
+	s = strings.TrimSpace(s)
+	if i := strings.LastIndexByte(s, '\n'); i >= 0 {
+		return s[i+1:]
+	}
+	return s
 }
